@@ -70,6 +70,48 @@ def run(ctx):
                     "%s.%s can return %s, which encode of the same datatype "
                     "rejects with TypeError: the field is written as "
                     "'# INVALID'" % (name, dn, ", ".join(rejected)))
+    # the non-validating encoders: the writer reaches them only when some
+    # caller of Field._to_gfa_field passes a `safe` argument that can be
+    # false.  When one does, unsafe_encode must take every class the decoders
+    # return, as encode does (otherwise a decoded field is written as
+    # '# INVALID' exactly at the levels that caller selects)
+    unsafe_callers = []
+    for f in repo.functions.values():
+        if not f.module.name.startswith("gfapy"):
+            continue
+        for n in ast.walk(f.node):
+            if isinstance(n, ast.Call) and isinstance(n.func, ast.Attribute) \
+                    and n.func.attr == "_to_gfa_field":
+                sv = [k.value for k in n.keywords if k.arg == "safe"]
+                if len(n.args) >= 3:
+                    sv.append(n.args[2])
+                for v in sv:
+                    if not (isinstance(v, ast.Constant) and v.value is True):
+                        unsafe_callers.append("%s: safe=%s" % (
+                            f.short, unparse(v)))
+    ctx.notes["callers_selecting_unsafe_encoders"] = unsafe_callers
+    if unsafe_callers:
+        for name, m in sorted(modules.items()):
+            uenc = codec.module_func(repo, m, "unsafe_encode")
+            if uenc is None:
+                continue
+            types = set()
+            for dn in ("decode", "unsafe_decode"):
+                dec = codec.module_func(repo, m, dn)
+                if dec is not None:
+                    types |= codec.return_types(repo, dec)
+            for t in sorted(types - {"?"}):
+                ctx.instance(R)
+                got = codec.gate_outcome(repo, uenc,
+                                         codec.sample_value(repo, t))
+                ok = got == "accept" or got is None
+                ctx.oblige(ok)
+                if not ok:
+                    ctx.violation(
+                        R, uenc.short, "datatype=%s,class=%s" % (name, t),
+                        "%s selects the non-validating encoders, and "
+                        "%s.unsafe_encode fails on a %s (%s), which the "
+                        "decoder returns" % (unsafe_callers[0], name, t, got))
     ctx.exhaustive[R] = True
 
     # ------------------------------------------------------------------
